@@ -81,6 +81,10 @@ def rec_field(I, obj, attr, node):
         fty = fty[1]
     if fty == 'none':
         return NONE
+    if isinstance(fty, tuple) and fty[0] == 'smap':
+        has = accessor(dcls, attr + '__has', z3.ArraySort(z3.StringSort(), z3.BoolSort()))(obj.t)
+        val = accessor(dcls, attr + '__val', z3.ArraySort(z3.StringSort(), TY.Obj))(obj.t)
+        return SV('smap', {'has': has, 'val': val}, extra={'elem': ('rec', fty[1])})
     if isinstance(fty, tuple) and fty[0] == 'const':
         return I.eval(ast.parse(fty[1], mode='eval').body, I.registry.global_frame(I, 'common'))
     return wrap_term(I, fty, accessor(dcls, attr, TY.smt_sort(fty))(obj.t))
@@ -301,6 +305,14 @@ def get_item(I, obj, key, node):
             return SV('pvalterm', z3.Select(od.t['val'], key.t))
         return unpack_pval(I, z3.Select(od.t['val'], key.t), od.extra.get('kinds') if od.extra else None,
                            od.extra.get('rawkinds') if od.extra else None)
+    if obj.kind == 'smap':
+        if key.kind != 'str':
+            if key.kind == 'none' and not I.spec:
+                I.raise_('KeyError', node)       # the maps are keyed by names: None is never a key
+            I.oos(node, "non-string key into a name map")
+        if not I.spec and not I.path.decide(z3.Select(obj.t['has'], key.t)):
+            I.raise_('KeyError', node)
+        return wrap_term(I, obj.extra['elem'], z3.Select(obj.t['val'], key.t))
     if obj.kind in ('clist', 'tuple'):
         ci = const_int(as_int_term(key)) if key.kind in ('int', 'bool') else None
         if ci is None:
